@@ -27,7 +27,7 @@ NEEDS_EXT = False
 TRUSTED = [
     "C20 emulation (harness/props/c20_emul.py): alias import of the snapshot's psutil with sys.platform/os.name patched during the import only, stub native modules built from the C sources' PyMethodDef tables, scripted os/time/glob/subprocess proxies; the native layers themselves (C for other OSes) are NOT executed",
     "C20: CPython's errno → OSError-subclass map (ESRCH→ProcessLookupError, ENOENT→FileNotFoundError, EPERM/EACCES→PermissionError), `OSError.winerror` set by the stub as Windows would",
-    "C20: the order of the native one-shot records is the one written in the C sources' Py_BuildValue comments (cross-checked textually by the translator, theorem C20_slot_maps_match_native)",
+    "C20: the order of the native one-shot records (and of the native tuples unpacked positionally) is the argument order of the C sources' Py_BuildValue CALLS, parsed by the translator through a mini preprocessor per identity (format units counted against arguments) and matched by name through the reviewed table Spec.slotCExpr / Spec.tupleCExpr (theorem C20_native_slot_order; the // comments are still cross-checked by C20_slot_maps_match_native); the emulator's stub records have the same lengths (fact stubRecordLens) and a distinct value per position; the C code itself is not compiled or run",
     "C20: 'pid state' is what the module's own probe sees after the faulted call (one-shot status slot on BSD/macOS — 'zombie' is swept over every native status code the identity's PROC_STATUSES maps to STATUS_ZOMBIE, each stub constant a distinct value; kill(pid,0) / /proc/<pid>/psinfo on Solaris/AIX); only the probe primitives follow it",
 ]
 ASSUMPTIONS = [
@@ -36,9 +36,9 @@ ASSUMPTIONS = [
     "Python-level os.path.exists/islink/isfile/os.access never raise and are not faulted; subprocess-based helpers (pfiles, procfiles, swap -l, lsdev, entstat) are outside the model",
 ]
 MANIFEST = {
-    "level_text": "Machine-checked Lean 4 proofs over a model of the five non-Linux platform modules and the front end's platform-conditional post-processing: C20_error_contract (for every platform module, every errno in {ESRCH, ENOENT, EPERM, EACCES, EIO, EINVAL}, every winerror, every pid and pid state, the decorator built from the translator's except-clause table produces exactly the cell of the contract table), instantiated for every decorated method of the generated per-platform method lists (C20_error_contract_methods), C20_all_methods_wrapped (every undecorated method justified one by one, helpers only reachable from decorated methods), C20_inner_handlers_transcribed, C20_method_faults_within_spec_code (every native call of every method × error × pid state: outcome within the specification's allowed set, by decide over the generated traces; full strength, no call site excluded, for the code as it is — the two Windows repairs 61843a1 / 4481769 have landed, obligations cfg_win_ppid_wrapped and cfg_win_maps_loop_guarded; counterexamples kept for the unrepaired configuration), C20_zombie_codes_documented / C20_zombie_probe_sees_documented_codes / C20_error_contract_status_codes (the contract in terms of the native status code of the probe record: is_zombie's comparison, a translator fact, says zombie for exactly the codes the platform documents — OpenBSD SDEAD and SZOMB), C20_two_faults_within_spec (two-fault sequences: for every generated row of first faults after which a method goes on — alternative path after an inner handler, or re-run by the partial-copy retry — every later native call × second error × pid state is within the specification; any first error), C20_two_faults_first_ends, C20_slot_maps_match_native, C20_slots_match, C20_all_record_reads_named (every read of a native one-shot record on any path is a named-slot read), C20_fallback_slots_match (the slot reads on except-handler paths are exactly the documented fall-backs), C20_ntuple_types, C20_win_pmem_layout (decide over generated tables), C20_api_names (documented ⊆ exposed per platform), C20_mac_padding, C20_broadcast_takes_effect (post-processing takes effect; counterexample for the pre-fix front end), C20_front_branches_classified (every platform-conditional branch inside a function or class of the front end is on a classified list) with C20_front_ppid / _name / _username / _pid_exists / _affinity_all_cpus / _disk_io_kwargs for the ones that transform a value. Tie: translator (except clauses, decorators, slot maps, feeds, record reads, fall-back reads, single- and two-fault traces, front-end branches, C comments, docs) + a differential run of the REAL platform modules and front end under platform emulation over a scripted native layer (full single-fault sweep; two-fault sequences: sampled at the quick tier, the whole domain at the thorough tier).",
-    "level_note": "Trusted: Lean kernel + {propext, Classical.choice, Quot.sound}; the translator; the emulation layer (stub natives, scripted os); CPython's errno→exception map. Not executed: the native C layers of the other OSes. Partial: pid-state semantics is the module's own probe; two-fault sequences start from first faults after which the method still returns (a second fault inside a decorator's own probe is not generated); no C20 finding is open; front-end branches _get_ident (Windows fast create_time), __eq__ (Open/NetBSD zombies), _send_signal (OpenBSD) and send_signal (non-POSIX) are listed but not modelled.",
-    "technique": "Lean 4 case analysis + decide over translator-generated tables; platform emulation with scripted native layer for the differential correspondence",
+    "level_text": "Machine-checked Lean 4 proofs over a model of the five non-Linux platform modules and the front end's platform-conditional post-processing: C20_error_contract (for every platform module, every errno in {ESRCH, ENOENT, EPERM, EACCES, EIO, EINVAL}, every winerror, every pid and pid state, the decorator built from the translator's except-clause table produces exactly the cell of the contract table), instantiated for every decorated method of the generated per-platform method lists (C20_error_contract_methods), C20_all_methods_wrapped (every undecorated method justified one by one, helpers only reachable from decorated methods), C20_inner_handlers_transcribed, C20_method_faults_within_spec_code (every native call of every method × error × pid state: outcome within the specification's allowed set, by decide over the generated traces; full strength, no call site excluded, for the code as it is — the two Windows repairs 61843a1 / 4481769 have landed, obligations cfg_win_ppid_wrapped and cfg_win_maps_loop_guarded; counterexamples kept for the unrepaired configuration), C20_zombie_codes_documented / C20_zombie_probe_sees_documented_codes / C20_error_contract_status_codes (the contract in terms of the native status code of the probe record: is_zombie's comparison, a translator fact, says zombie for exactly the codes the platform documents — OpenBSD SDEAD and SZOMB), C20_two_faults_within_spec (two-fault sequences: for every generated row of first faults after which a method goes on — alternative path after an inner handler, or re-run by the partial-copy retry — every later native call × second error × pid state is within the specification; any first error), C20_two_faults_first_ends, C20_slot_maps_match_native, C20_slots_match, C20_all_record_reads_named (every read of a native one-shot record on any path is a named-slot read), C20_fallback_slots_match (the slot reads on except-handler paths are exactly the documented fall-backs), C20_ntuple_types, C20_win_pmem_layout (decide over generated tables), C20_api_names (documented ⊆ exposed per platform), C20_mac_padding, C20_broadcast_takes_effect (post-processing takes effect; counterexample for the pre-fix front end), C20_front_branches_classified (every platform-conditional branch inside a function or class of the front end is on a classified list) with C20_front_ppid / _name / _username / _pid_exists / _affinity_all_cpus / _disk_io_kwargs for the ones that transform a value. Tie: translator (except clauses, decorators, slot maps, feeds, record reads, fall-back reads, single- and two-fault traces, front-end branches, C comments, docs) + a differential run of the REAL platform modules and front end under platform emulation over a scripted native layer (full single-fault sweep; two-fault sequences: sampled at the quick tier, the whole domain at the thorough tier). Round 2: C20_native_slot_order (slot i of every slot map = i-th argument of the parsed Py_BuildValue call of the C function, per identity, by name through a reviewed table; the positional native tuples too; stub record lengths) with C20_native_saved_gid_characterisation (BSD: the saved_gid slot is fed from the saved uid member — native layer, beyond the statement); C20_api_fields (every namedtuple field docs/index.rst documents for a platform — bullets with platform notes, per-platform table columns in order — is a field of that platform's namedtuple; six Solaris/AIX gaps listed and kept exact by C20_api_fields_gaps_characterisation); C20_front_ident / _ident_fast_only / cfg_ident_fast_only (Process(pid): Windows identity uses create_time(fast_only=True), AccessDenied → (pid, None)), C20_front_eq (Open/NetBSD zombie equality, all identities), C20_front_send_signal_posix (OpenBSD zombie branch), C20_front_send_signal_windows (+ _contract): all driven on the REAL front end over the REAL platform module under each emulated identity.",
+    "level_note": "Trusted: Lean kernel + {propext, Classical.choice, Quot.sound}; the translator; the emulation layer (stub natives, scripted os); CPython's errno→exception map. Not executed: the native C layers of the other OSes. Partial: pid-state semantics is the module's own probe; two-fault sequences start from first faults after which the method still returns (a second fault inside a decorator's own probe is not generated); no C20 finding is open; every platform-conditional front-end branch that transforms a value is now modelled (round 2: _get_ident, __eq__, _send_signal, send_signal); documented FIELDS: six Solaris/AIX gaps (nice, active, inactive marked *(UNIX)* in the docs) are characterised, not findings (the statement promises function and constant names); the native C code is parsed, not compiled.",
+    "technique": "Lean 4 case analysis + decide over translator-generated tables (Python AST, parsed C Py_BuildValue calls, docs); platform emulation with scripted native layer for the differential correspondence",
     "design_ref": "DESIGN.md §5 C20",
 }
 
@@ -48,6 +48,7 @@ ERRNO_NAME = {v: k for k, v in ERRNOS}
 WIN_CODES = [0, E.ERROR_ACCESS_DENIED, E.ERROR_PRIVILEGE_NOT_HELD, E.ERROR_PARTIAL_COPY, E.ERROR_INVALID_PARAMETER]
 NO_FAULT = {"os.path.exists", "os.path.islink", "os.path.isfile", "os.access"}
 PIDS = [42, 0]
+RETRY_TOTAL_S = (0.5, 2.0)     # retry_error_partial_copy: "retries for roughly 1 second" (comment in _pswindows.py)
 
 # ------------------------------------------------------------------------------ translator
 
@@ -548,6 +549,8 @@ def run_fault(emu, c, with_trace=False):
                       zcode=c.get("zcode"), **kw)
     out = impl_outcome(obs)
     out["sleeps"] = obs.get("sleeps", 0)
+    if "slept" in obs:
+        out["slept"] = obs["slept"]
     if len(tr) <= c["k"] or tr[c["k"]] != c["call"]:
         out = {"k": "trace-drift", "trace": tr[:8]}
     elif c.get("kind") == "fault2" and (len(tr) <= c["k2"] or tr[c["k2"]] != c["call2"]):
@@ -611,6 +614,12 @@ def judge_fault(c, impl, m, res):
         res.disagree("spec", c, impl, m["model"], {"retries": m["spec"]["retries"]},
                      note="ERROR_PARTIAL_COPY is retried %s times before AccessDenied, the documented number is %s"
                      % (impl.get("sleeps"), m["spec"]["retries"]))
+        return True
+    if c.get("sticky") and impl.get("k") == "ad" and impl.get("sleeps") == m["spec"]["retries"] > 0 \
+            and not (RETRY_TOTAL_S[0] <= impl.get("slept", 0.0) <= RETRY_TOTAL_S[1]):
+        res.disagree("spec", c, impl, m["model"], {"retries_for_roughly_seconds": list(RETRY_TOTAL_S)},
+                     note="ERROR_PARTIAL_COPY: the %s retries sleep %s s in total; documented: \"retries for roughly 1 second\""
+                     % (impl.get("sleeps"), impl.get("slept")))
         return True
     if not same_outcome(impl, mo) or impl.get("sleeps", 0) != m["model"]["sleeps"]:
         res.disagree("model", c, impl, m["model"], {"cell": m["spec"]["cell"], "allowed": allowed},
